@@ -312,7 +312,7 @@ Definition c13_router (n : netlist) (r : rt_inst) : fails :=
   guard ((r_nroutes r =? r_nin r) && (r_nin r =? r_nout r) && forallb (fun l => Z.of_nat l =? r_nin r) lens)
         "router-port-count" (r_name r +++ ": NumRoutes/NumInputs/NumOutputs differ from the port array lengths") ++
   match r_map r with
-  | Some (nm, (n1, (n2, rules))) =>
+  | Some (nm, (n1, (n2, (iw, rules)))) =>
       guard ((n1 =? Z.of_nat (length rules)) && (n2 =? n1)) "router-rule-count"
             (r_name r +++ ": " +++ nm +++ "NumRules=" +++ ZS n1 +++ ", .NumAddrRules=" +++ ZS n2 +++ ", table has "
              +++ NS (length rules) +++ " entries")
@@ -622,6 +622,65 @@ Definition chk_C08 (n : netlist) (ports : list port_decl) (nis : list ni_expect)
          +++ "] expected [" +++
          concat_with "; " (map cfg_str cfgs)
          +++ "]").
+
+(* ---------------------------------------------------------------- C12: structural well-formedness *)
+(* bracket / delimiter tokens: k >= 0 opens kind k, -1-k closes kind k
+   (0 paren, 1 bracket, 2 brace, 3 module, 4 package, 5 begin) *)
+Fixpoint balance_run (ts : list Z) (st : list Z) : bool :=
+  match ts with
+  | [] => match st with [] => true | _ => false end
+  | t :: r => if 0 <=? t then balance_run r (t :: st)
+              else match st with
+                   | k :: st' => (t =? -1 - k) && balance_run r st'
+                   | [] => false
+                   end
+  end.
+
+Record text_facts := {
+  tf_brackets : list (string * list Z);
+  tf_decl : list (string * list string);
+  tf_used : list (string * list string);
+  tf_avail : list (string * list string);
+  tf_lits : list (Z * (Z * (Z * Z)));          (* width, value, digits, bits per digit (0 = decimal) *)
+  tf_fields : list (string * (Z * Z));          (* what, field width, value *)
+  tf_sam : list (Z * (Z * (Z * Z)));            (* literal width, value, digits, addr width *)
+  tf_route_bits : option Z;
+  tf_words : list word;
+}.
+
+Definition dups (l : list string) : list string :=
+  let fix go (l : list string) :=
+      match l with
+      | [] => []
+      | x :: xs => if existsb (str_eqb x) xs then x :: go xs else go xs
+      end in go l.
+
+Definition chk_C12 (f : text_facts) : fails :=
+  flat_map (fun b => guard (balance_run (snd b) []) "unbalanced" ("delimiters of the " +++ fst b +++ " file do not balance")) (tf_brackets f) ++
+  flat_map (fun d => match dups (snd d) with
+                     | [] => []
+                     | ds => one "duplicate-decl" ("declared twice in the " +++ fst d +++ " scope: " +++ concat_with " " ds)
+                     end) (tf_decl f) ++
+  flat_map (fun u => let av := opt_default [] (option_map snd (find (fun a => str_eqb (fst a) (fst u)) (tf_avail f))) in
+                     match filter (fun x => negb (existsb (str_eqb x) av)) (snd u) with
+                     | [] => []
+                     | bad => one "undeclared" ("used in the " +++ fst u +++ " file but declared nowhere: " +++ concat_with " " bad)
+                     end) (tf_used f) ++
+  flat_map (fun l => let '(w, (v, (nd, bpd))) := l in
+                     guard ((0 <=? v) && (v <? 2 ^ w) && ((bpd =? 0) || (nd * bpd <=? w + bpd - 1))) "literal-overflow"
+                           ("sized literal of width " +++ ZS w +++ " holds " +++ ZS v +++ " written with " +++ ZS nd +++ " digits")) (tf_lits f) ++
+  flat_map (fun l => let '(lw, (v, (nd, aw))) := l in
+                     guard ((lw =? aw) && (0 <=? v) && (v <? 2 ^ aw) && (nd =? cdiv aw 4)) "address-literal"
+                           ("address bound " +++ ZS v +++ " is written as a " +++ ZS lw +++ "-bit literal with " +++ ZS nd
+                            +++ " digits for an address width of " +++ ZS aw)) (tf_sam f) ++
+  flat_map (fun w => match tf_route_bits f with
+                     | Some rb => guard ((w_width w =? rb) && (w_digits w =? rb) && (0 <=? w_val w) && (w_val w <? 2 ^ rb)) "route-word"
+                                        ("route word of width " +++ ZS (w_width w) +++ "/" +++ ZS (w_digits w) +++ " digits, route_t has " +++ ZS rb +++ " bits")
+                     | None => one "route-word" "route words without a route type"
+                     end) (tf_words f) ++
+  flat_map (fun x => let '(what, (w, v)) := x in
+                     guard ((0 <=? v) && (v <? 2 ^ w)) "field-overflow"
+                           (what +++ " = " +++ ZS v +++ " does not fit its " +++ ZS w +++ "-bit field")) (tf_fields f).
 
 (* ---------------------------------------------------------------- wire format *)
 Definition fails_to_sx (f : fails) : sx := xL (fun p => L [A (fst p); A (sanitize (snd p))]) f.
